@@ -4,6 +4,7 @@ CONSTANTS
   FaultKinds = {"int-range", "operand-type", "private-member", "match-nonexhaustive"}
   SyntaxKinds = {"int-range"}
   MaxFaults = 3
+  LexicalChecked = TRUE
 INVARIANTS TypeOK InvC06 InvSyntaxKept
 PROPERTIES EventuallyRefused EventuallyEmitted NeverBoth
 CHECK_DEADLOCK FALSE
